@@ -42,6 +42,9 @@ def main():
             env = dict(ns)
             env.update(dict(zip(names, a)))
             env.update(k)
+            for nm, prm in inspect.signature(fn).parameters.items():
+                if nm not in env and prm.default is not prm.empty:
+                    env[nm] = prm.default
             env["_"] = ret
             env["__return__"] = ret
             ok = bool(eval(post, env))
